@@ -1,5 +1,5 @@
 (* Line-level string operations used by the nested-parse machinery (C06):
-   str.splitlines (full Python separator set), "\n".join, text + "\n" per line,
+   split_lines (newline separators only), "\n".join, text + "\n" per line,
    str.isspace / lstrip / strip, str.split(None, k).  Executable definitions first,
    their algebraic lemmas after. Self-contained (only Base.PyStr is used). *)
 From Coq Require Import List NArith Bool Lia.
@@ -11,22 +11,22 @@ Definition c_nl : N := 10.
 Definition c_cr : N := 13.
 Definition nl : str := [c_nl].
 
-(* the characters at which str.splitlines() breaks a line:
-   \n \v \f \r \x1c \x1d \x1e \x85     *)
-Definition is_sep (c : N) : bool :=
-  mem_N c [10; 11; 12; 13; 28; 29; 30; 133; 8232; 8233].
+(* the characters at which myst_parser.parsers.directives.split_lines breaks a line
+   (_RE_NEWLINE = r"\r\n|\r|\n", fix 620bbcf): newlines only, as markdown-it; unlike
+   str.splitlines, \v \f \x1c-\x1e \x85 U+2028 U+2029 stay inside their line *)
+Definition is_sep (c : N) : bool := mem_N c [10; 13].
 
-(* str.splitlines(): "\r\n" is one break; no empty last line for a trailing break *)
-Fixpoint splitlines (s : str) : list str :=
+(* split_lines(text): "\r\n" is one break; no empty last line for a trailing break *)
+Fixpoint split_lines (s : str) : list str :=
   match s with
   | [] => []
   | c :: s' =>
       if is_sep c then
         [] :: (match s' with
-               | d :: r => if (c =? c_cr) && (d =? c_nl) then splitlines r else splitlines s'
+               | d :: r => if (c =? c_cr) && (d =? c_nl) then split_lines r else split_lines s'
                | [] => []
                end)
-      else match splitlines s' with
+      else match split_lines s' with
            | [] => [[c]]
            | l :: ls => (c :: l) :: ls
            end
@@ -91,7 +91,7 @@ Definition split_ws (s : str) : list str := split_ws_max (length s) s.
 Fixpoint last_opt {A} (l : list A) : option A :=
   match l with [] => None | [x] => Some x | _ :: r => last_opt r end.
 
-(* what "\n".join(ls).splitlines() returns for separator-free lines: one trailing "" is lost *)
+(* what "\n".join(ls).split_lines() returns for separator-free lines: one trailing "" is lost *)
 Fixpoint strip_last_empty (ls : list str) : list str :=
   match ls with
   | [] => []
@@ -101,8 +101,8 @@ Fixpoint strip_last_empty (ls : list str) : list str :=
 
 (* ------------------------------------------------------------------ lemmas *)
 
-Lemma splitlines_sepfree_nonempty l :
-  sepfree l = true -> l <> [] -> splitlines l = [l].
+Lemma split_lines_sepfree_nonempty l :
+  sepfree l = true -> l <> [] -> split_lines l = [l].
 Proof.
   induction l as [|c l IH]; intros H Hne; [congruence|].
   simpl in H. apply andb_true_iff in H as [Hc Hl].
@@ -112,38 +112,38 @@ Proof.
   - rewrite IH; auto. discriminate.
 Qed.
 
-Lemma splitlines_line l rest :
-  sepfree l = true -> splitlines (l ++ nl ++ rest) = l :: splitlines rest.
+Lemma split_lines_line l rest :
+  sepfree l = true -> split_lines (l ++ nl ++ rest) = l :: split_lines rest.
 Proof.
   induction l as [|c l IH]; intro H.
   - simpl. destruct rest as [|d r]; [reflexivity|].
     replace ((c_nl =? c_cr) && (d =? c_nl)) with false by reflexivity. reflexivity.
   - simpl in H. apply andb_true_iff in H as [Hc Hl].
     change ((c :: l) ++ nl ++ rest) with (c :: (l ++ nl ++ rest)).
-    cbn [splitlines]. destruct (is_sep c); [discriminate|].
+    cbn [split_lines]. destruct (is_sep c); [discriminate|].
     rewrite IH by assumption. reflexivity.
 Qed.
 
-Lemma splitlines_unlines ls :
-  all_sepfree ls = true -> splitlines (unlines ls) = ls.
+Lemma split_lines_unlines ls :
+  all_sepfree ls = true -> split_lines (unlines ls) = ls.
 Proof.
   induction ls as [|l r IH]; intro H; [reflexivity|].
   simpl in H. apply andb_true_iff in H as [Hl Hr].
-  cbn [unlines]. rewrite splitlines_line by assumption. rewrite IH by assumption. reflexivity.
+  cbn [unlines]. rewrite split_lines_line by assumption. rewrite IH by assumption. reflexivity.
 Qed.
 
 Lemma join_cons2 sep a b r : join sep (a :: b :: r) = a ++ sep ++ join sep (b :: r).
 Proof. reflexivity. Qed.
 
-Lemma splitlines_join ls :
-  all_sepfree ls = true -> splitlines (join nl ls) = strip_last_empty ls.
+Lemma split_lines_join ls :
+  all_sepfree ls = true -> split_lines (join nl ls) = strip_last_empty ls.
 Proof.
   induction ls as [|l r IH]; intro H; [reflexivity|].
   simpl in H. apply andb_true_iff in H as [Hl Hr].
   destruct r as [|b r'].
   - cbn [join strip_last_empty]. destruct l as [|c l']; [reflexivity|].
-    apply splitlines_sepfree_nonempty; [assumption|discriminate].
-  - rewrite join_cons2. rewrite splitlines_line by assumption.
+    apply split_lines_sepfree_nonempty; [assumption|discriminate].
+  - rewrite join_cons2. rewrite split_lines_line by assumption.
     rewrite IH by assumption. reflexivity.
 Qed.
 
